@@ -362,7 +362,7 @@ def run_toklen(run, P, units=('coap_pdu.c',)):
                             run.violation('R-CODEC-TAB', f['name'], loc, 'token-size-field:%s' % what.split('>')[-1].split('.')[-1],
                                           '%s measures the buffer with actual_token.length, every sibling uses e_token_length: for tokens of 13 bytes and more the two differ by the '
                                           'RFC 8974 extension bytes, so the size written / position computed is off by 1 or 2' % short(x)[:70], [])
-    run.require(n >= 6 or run.fixture_mode, 'R-CODEC-TAB(5): only %d buffer/token-size expressions found in %s' % (n, units))
+    run.require_count(n >= 6 or run.fixture_mode, 'R-CODEC-TAB(5): only %d buffer/token-size expressions found in %s' % (n, units))
 
 
 # ---------------------------------------------------------------------------------------------------------------
@@ -425,7 +425,7 @@ def run_tokext(run, P, units=('coap_pdu.c',)):
                 run.violation('R-CODEC-TAB', f['name'], ev['loc'], 'token-extension-bytes:%s' % macro,
                               '%s adds constants summing to %d; the on-wire size of a token in this extension form is value + %d (bias) + %d (extension length byte%s) = + %d: '
                               'this decoder and its sibling disagree by %d byte(s)' % (short(t)[:70], csum, bias, TOKEN_EXT[macro], 's' if TOKEN_EXT[macro] > 1 else '', want, abs(want - csum)), [])
-    run.require(n >= 4 or run.fixture_mode, 'R-CODEC-TAB(6): only %d extended-token size expressions found in %s' % (n, units))
+    run.require_count(n >= 4 or run.fixture_mode, 'R-CODEC-TAB(6): only %d extended-token size expressions found in %s' % (n, units))
 
 
 def run_tokbias(run, P, units=('coap_pdu.c',)):
@@ -496,7 +496,7 @@ def run_tokbias(run, P, units=('coap_pdu.c',)):
                             run.violation('R-CODEC-TAB', f['name'], loc, 'token-length-partition:%s' % m0['mn'],
                                           '%s cuts the application token lengths at %d (%s), not at 13 or 269 where RFC 8974 changes the form of the token length: the boundary '
                                           'tokens take the wrong arm' % (short(x)[:70], cut, 'comparison on the on-wire size, which contains the extension bytes' if wire else 'comparison on the application length'), [])
-    run.require(n >= (6 if run.cfg == 'base' else 4) or run.fixture_mode, 'R-CODEC-TAB(7): only %d comparisons with the extended-token bias macros found' % n)
+    run.require_count(n >= (6 if run.cfg == 'base' else 4) or run.fixture_mode, 'R-CODEC-TAB(7): only %d comparisons with the extended-token bias macros found' % n)
 
 
 def run_tokmax(run, P):
@@ -615,4 +615,41 @@ def run_marker(run, P, units=('coap_pdu.c',)):
                 run.oblige('R-CODEC-TAB', True, '%s:marker-followed-by-payload' % name)
             return None
         solve(f, Env(), on_event, None, keys, R, key_fn=lambda e: (e.ts.get('open'), tuple((e.intf(v)[0] >= 1, 0 in e.intf(v)[2]) for v in sorted(lenvars))))
-    run.require(n >= 1 or run.fixture_mode, 'R-CODEC-TAB(9): no function of %s stores the payload marker any more' % (units,))
+    run.require_count(n >= 1 or run.fixture_mode, 'R-CODEC-TAB(9): no function of %s stores the payload marker any more' % (units,))
+
+
+def run_opt_cursor(run, P):
+    """R-CODEC-TAB (10) (walking encoded options): an encoded option is 1 header byte plus 0-2 delta-extension bytes plus 0-2 length-extension
+    bytes plus the value; only coap_opt_size() / coap_opt_parse() know that.  A byte cursor over encoded options that is advanced by an
+    expression built from coap_opt_length() (the VALUE length) assumes a one-byte header: right for values of up to 12 bytes, one or
+    two bytes short from 13 / 269 bytes on -- the next option is then written over the tail of the previous one.  Library-wide: no
+    `cursor += E` / `cursor = cursor + E` whose E calls coap_opt_length() on that cursor."""
+    run.rule('R-CODEC-TAB')
+    n = 0
+    for f in sorted(P.lib_funcs(), key=lambda f: f['name']):
+        for b, ev in P.events(f):
+            t = ev['e']
+            if not (ev.get('top', True) and t.get('k') == 'asg' and ap(t['l'])):
+                continue
+            l = ap(t['l'])
+            e = None
+            if t.get('op') == '+=':
+                e = t['r']
+            elif t.get('op') == '=':
+                r = strip(t['r'])
+                if isinstance(r, dict) and r.get('k') == 'bin' and r.get('op') == '+' and (ap(strip(r['l'])) == l or ap(strip(r['r'])) == l):
+                    e = r['r'] if ap(strip(r['l'])) == l else r['l']
+            if e is None:
+                continue
+            calls = [x for x in walk(e) if isinstance(x, dict) and x.get('k') == 'call' and x.get('fn') in ('coap_opt_length', 'coap_opt_size') and x.get('a') and ap(strip(x['a'][0])) == l]
+            if not calls:
+                continue
+            n += 1
+            bad = any(c['fn'] == 'coap_opt_length' for c in calls)
+            run.instance('R-CODEC-TAB', '%s: option cursor advanced by %s' % (f['name'], short(e)[:40]))
+            run.oblige('R-CODEC-TAB', not bad, '%s:option-cursor-advanced-by-encoded-size' % f['name'])
+            if bad:
+                run.violation('R-CODEC-TAB', f['name'], ev['loc'], 'option-cursor-advanced-by-value-length',
+                              '`%s` steps over an encoded option by its VALUE length plus a constant: options with a value of 13 bytes or more have a longer header '
+                              '(coap_opt_size() knows), so the cursor stops inside the option and the next one is written over its tail' % short(t)[:70], [])
+    run.require_count(n >= 1 or run.fixture_mode or run.cfg != 'base', 'R-CODEC-TAB(10): no cursor advanced by coap_opt_size() found (expected backup_segment)')
